@@ -74,7 +74,7 @@ def _collect(tier):
     seed = common.seed()
     wd = orchestrate.workdir("lexfam_" + tier)
     cfg = "MC_Lexer_quick.cfg" if tier == "quick" else "MC_Lexer_thorough.cfg"
-    res = tlc.model_check("LexerImpl", cfg, workers=16, timeout=3000, heap="12g")
+    res = tlc.model_check("LexerImpl", cfg, workers=16, timeout=3000, heap="16g", extra=("-maxSetSize", "100000000"))
     design = [{"module": "LexerImpl", "cfg": cfg, "ok": res.ok, "states": res.states, "distinct": res.distinct, "error": res.error[:400], "wall": round(res.wall, 1)}]
     t1 = time.time()
     maxlen = 4
